@@ -1,5 +1,6 @@
 import Casket.Proofs.Exec
 import Casket.Generated.Directives
+import Casket.Generated.Registered
 /-
 C09 — Directives act in the fixed documented order, not in file order.
 
@@ -83,6 +84,20 @@ theorem C09_group_model_verdict_ok (ls ls' : List Line) (h : StablePerm ls ls') 
     simp [hp, this]
   · simp [hp]
 
+/-- `InspectServerBlocks`: a block with `gzip` always ends up with an `errors` directive (used by
+C20: behind `errors` no handler panic escapes the access log) -/
+theorem gzip_implies_errors (m : TokMap) (h : (tokensOf m "gzip").isSome = true) :
+    (tokensOf (inspect m) "errors").isSome = true := by
+  unfold inspect
+  by_cases he : (tokensOf m "errors").isNone = true
+  · simp only [h, he, Bool.and_self, if_true]
+    rw [tokensOf_append]
+    cases tokensOf m "errors" <;> simp
+  · simp only [h, he, Bool.true_and, if_false]
+    cases ht : tokensOf m "errors" with
+    | none => simp [ht] at he
+    | some _ => simp [ht]
+
 /-- test (non-vacuity): a reordering that moves `rewrite` lines behind `basicauth` and `gzip` in
 front of both is stable; the chain is the same and in list order -/
 example :
@@ -149,6 +164,45 @@ sizes), `gzip` is outside `errors` (see InspectServerBlocks) -/
 theorem order_log_gzip_errors : before "log" "gzip" = true ∧ before "gzip" "errors" = true ∧ before "log" "rewrite" = true := by
   decide
 
+/-! ### the documented order, exhaustively: classes over the regenerated tables -/
+
+/-- the standard directives of this distribution: in the list and with a registered plugin -/
+def standard : List Dir := D.filter fun d => Casket.Generated.registeredPlugins.contains d
+
+/-- Every standard directive is classified, exactly once, and the classes contain nothing else
+(`decide` over the regenerated list and the regenerated plugin names): a directive added to the
+list or a plugin newly compiled in must be given a class before this check passes again. -/
+theorem classification_covers_standard :
+    (standard.all fun d => ((classes.flatMap (·.members)).filter (· == d)).length == 1) = true ∧
+    ((classes.flatMap (·.members)).all fun d => standard.contains d) = true := by
+  decide
+
+/-- THE documented order: for every documented pair of classes (X, Y), every member of X comes
+before every member of Y in the regenerated list. -/
+theorem documented_order_holds :
+    (documentedOrder.all fun (xy : DirClass × DirClass) =>
+      xy.1.members.all fun a => xy.2.members.all fun b => before a b) = true := by
+  decide
+
+/-- the same as a statement about members -/
+theorem C09_documented_order (X Y : DirClass) (hxy : (X, Y) ∈ documentedOrder) (a b : Dir)
+    (ha : a ∈ X.members) (hb : b ∈ Y.members) : before a b = true := by
+  have h := List.all_eq_true.mp documented_order_holds (X, Y) hxy
+  have h2 := List.all_eq_true.mp h a ha
+  exact List.all_eq_true.mp h2 b hb
+
+/-- every probe of the stream `c09.pairs` is an instance of a documented class pair, and every
+documented class pair between handler classes that the probes can tell apart has one -/
+theorem probes_are_documented :
+    (scenarios.all fun s => documentedOrder.any fun xy => xy.1.members.contains s.outer && xy.2.members.contains s.inner) = true := by
+  decide
+
+/-- the handler-adding directives are exactly the classified ones outside the `setup` class -/
+theorem middleware_directives_are_the_handler_classes :
+    (middlewareDirectives.all fun d => ((classes.drop 1).flatMap (·.members)).contains d) = true ∧
+    (((classes.drop 1).flatMap (·.members)).all fun d => middlewareDirectives.contains d) = true := by
+  decide
+
 /-- every directive the model treats as adding a handler is in the list -/
 theorem middleware_directives_listed : (middlewareDirectives.all fun d => D.contains d) = true := by decide
 
@@ -160,5 +214,14 @@ theorem C09_before_wraps (blocks : List Block) (i j : Nat) (a b : Dir) (hab : be
     [a, b].Sublist (siteMiddleware addsMiddleware (execSeq D blocks) i j) := by
   simp only [before, Bool.and_eq_true, decide_eq_true_eq] at hab
   exact C09_earlier_wraps_later D directives_nodup addsMiddleware blocks i j a b ha hb hab.2
+
+/-- … and about handler nesting: in every site, for every block contents, a present member of X
+wraps every present member of Y. -/
+theorem C09_documented_nesting (X Y : DirClass) (hxy : (X, Y) ∈ documentedOrder) (a b : Dir)
+    (ha : a ∈ X.members) (hb : b ∈ Y.members) (blocks : List Block) (i j : Nat)
+    (hma : a ∈ siteMiddleware addsMiddleware (execSeq D blocks) i j)
+    (hmb : b ∈ siteMiddleware addsMiddleware (execSeq D blocks) i j) :
+    [a, b].Sublist (siteMiddleware addsMiddleware (execSeq D blocks) i j) :=
+  C09_before_wraps blocks i j a b (C09_documented_order X Y hxy a b ha hb) hma hmb
 
 end Casket.Props.C09
